@@ -35,7 +35,8 @@ def run(ctx, report):
     report.section("span typestate", spans, ctx, report)
     report.section("references", references, ctx, report)
     report.section("regions", regions, ctx, report)
-    report.section("structure", structure, ctx, report)
+    report.structural_section("structure (shape)", "R-DOC-CUES / R-DOC-REFS on the folded documents of the three DFXP writers (one div per "
+                              "language, one p per caption)", structure, ctx, report)
     from . import markup_writer_fold
     report.section("written documents", markup_writer_fold.run, ctx, report, {
         "wellformed": ("R-DOC-GRAMMAR", "1"), "structure": ("R-DOC-CUES", "1"), "refs": ("R-DOC-REFS", "2")})
